@@ -81,6 +81,9 @@ def classes(ctx, dev, dev3, other):
     for mag in (1.0, 1e-2, 1e-4, 1e-6):
         yield "unbalanced-constant-2", mag, solve(terminal_currents={"source": 5.0, "drain": -5.0 * (1 + mag)}), (ValueError,)
         yield "unbalanced-constant-3", mag, solve(_dev=dev3, terminal_currents={"source": 5.0, "drain": -2.0, "top": -3.0 + 5.0 * mag}), (ValueError,)
+        # the same relative imbalance on currents of a few nA (stated in nA, and in the default uA)
+        yield "unbalanced-constant-2-nA", mag, solve(_opts=dict(current_units="nA"), terminal_currents={"source": 2.0, "drain": -2.0 * (1 - mag)}), (ValueError,)
+        yield "unbalanced-constant-3-tiny", mag, solve(_dev=dev3, terminal_currents={"source": 2e-3, "drain": -5e-4, "top": -1.5e-3 * (1 - mag)}), (ValueError,)
         yield "unbalanced-timedep", mag, solve(terminal_currents=(lambda m: (lambda t: {"source": 4.0 + np.sin(t), "drain": -(4.0 + np.sin(t)) * (1 - m)}))(mag)), (ValueError,)
         # ... "at any time": unbalanced during the whole recorded window [0, solve_time] of a run that also has a
         # thermalisation stage (both stages run on a clock that starts at 0), balanced at later times
@@ -294,7 +297,10 @@ def model_currents(ctx, dev3, n):
     lines, exp = [], []
     ti = [t.name for t in dev3.terminal_info()]
     for _ in range(n):
-        vals = rng.uniform(-9, 9, size=2)
+        # the balance test is RELATIVE: currents of a few nA (or kA) with the same relative imbalance get the same verdict
+        scale_ = float(rng.choice([1.0, 1.0, 1e-3, 2e-4, 1e-6, 1e3]))
+        vals = rng.uniform(-9, 9, size=2) * scale_
+        ctx.count(f"balance_threshold_current_scale:{scale_:g}")
         mag = float(rng.choice([0.0, 0.0, 1e-13, 1e-7, 1e-6, 1e-3, 1.0]))
         third = -(vals.sum()) + mag * np.abs(vals).max() * rng.choice([-1, 1])
         cur = dict(zip(ti, [float(vals[0]), float(vals[1]), float(third)]))
